@@ -207,7 +207,11 @@ const TAG_SENTINEL: u8 = 0xEE;
 
 fn with_counter(parts: ([u8; 32], [u8; 12]), c: u32) -> ss::State {
     let (k, mut n) = parts;
-    n[..4].copy_from_slice(&c.to_le_bytes());
+    // the natural class keeps exactly what init produced (so that a wrong
+    // initial counter is not papered over); the others preset the counter
+    if c != 1 {
+        n[..4].copy_from_slice(&c.to_le_bytes());
+    }
     ss::State::verif_from_parts(k, n)
 }
 
@@ -451,7 +455,15 @@ impl World for StreamWorld {
         let rx = *rng.pick(&rxs);
         let counter = match rng.below(10) {
             0..=2 => CounterClass::Natural,
-            3..=4 => CounterClass::Mid(rng.range(2, 0xffff_fff0) as u32),
+            3..=4 => {
+                if rng.chance(1, 3) {
+                    // carry chains of the little-endian counter increment
+                    let base = *rng.pick(&[0x0000_00ffu32, 0x0000_ffff, 0x00ff_ffff, 0x0100_0000, 0x7fff_ffff, 0x8000_0000, 0x00ff_00ff]);
+                    CounterClass::Mid(base.wrapping_sub(rng.below(3) as u32).max(2))
+                } else {
+                    CounterClass::Mid(rng.range(2, 0xffff_fff0) as u32)
+                }
+            }
             5..=6 => CounterClass::FFFFFFFD,
             7..=8 => CounterClass::FFFFFFFE,
             _ => CounterClass::FFFFFFFF,
@@ -478,7 +490,9 @@ impl World for StreamWorld {
         let mut header = [0u8; 24];
         let (tx, tx_parts) = match cfg.tx {
             TxFlavour::Classic => {
-                let mut st = ss::State::new();
+                // half of the classic runs initialise a *reused* state object (dirty key, nonce
+                // and counter): init must not depend on what the state held before
+                let mut st = if cfg.rseed & 1 == 1 { ss::State::verif_from_parts([0xA5; 32], [0xFF; 12]) } else { ss::State::new() };
                 ss::crypto_secretstream_xchacha20poly1305_init_push(&mut st, &mut header, &key);
                 let p = st.verif_parts();
                 (Tx::Classic(with_counter(p, c)), p)
@@ -493,7 +507,7 @@ impl World for StreamWorld {
         let _ = tx_parts;
         let rx = match cfg.rx {
             RxFlavour::Classic => {
-                let mut st = ss::State::new();
+                let mut st = if cfg.rseed & 2 == 2 { ss::State::verif_from_parts([0x5A; 32], [0xFF; 12]) } else { ss::State::new() };
                 ss::crypto_secretstream_xchacha20poly1305_init_pull(&mut st, &header, &key);
                 Rx::Classic(with_counter(st.verif_parts(), c))
             }
